@@ -106,7 +106,10 @@ func (g *Gen) recursion(depth int) []*Node {
 	}
 	body := Chunk(Stmt(&Node{T: "if", Arms: []Arm{{CapCmd(">", Var("n"), Str("0")), rec}}, Els: base}))
 	out := []*Node{Stmt(&Node{T: "fn", Name: name, Lam: &Node{T: "lam", Params: []string{"n"}, Body: body}})}
-	g.declare(name+"~", &varInfo{kind: KFn, fn: &fnInfo{params: 1, named: true}})
+	// registered without a signature: only this pattern calls it, with a small literal, so other
+	// call sites cannot pass an arbitrary number (a recursion thousands of levels deep, each level
+	// holding the pipe of an output capture)
+	g.declare(name+"~", &varInfo{kind: KFn})
 	out = append(out, Stmt(Cmd(name, Str(fmt.Sprint(g.R.Intn(4))))))
 	return out
 }
